@@ -90,6 +90,11 @@ class Ctx:
     def begin(self, case):
         self.case = case
         self.case_features = {}
+        # client-boundary argument typing (opt-in per module, see shard.workload): in such a case every Python int handed to pyttb --
+        # bare or inside a tuple / list -- is passed as the NumPy integer that np.argmax, np.arange, a shape tuple ... hand out.
+        self.npint = bool(case.get("npint_args"))
+        if self.npint:
+            self.case_features["npint_args"] = True
 
     def feat(self, **kw):
         self.case_features.update(kw)
@@ -147,6 +152,9 @@ class Ctx:
             for k, a in kw.items():
                 named[f"kw_{k}"] = a
             snap = Snapshot(named)
+        if getattr(self, "npint", False):
+            args = tuple(_npintify(a) for a in args)
+            kw = {k: _npintify(v) for k, v in kw.items()}
         try:
             value = fn(*args, **kw)
             out = Outcome(True, value)
@@ -154,6 +162,13 @@ class Ctx:
             raise
         except BaseException as e:  # noqa: BLE001
             out = Outcome(False, None, e, traceback.format_exc(limit=-6))
+            if getattr(self, "npint", False) and isinstance(e, (AssertionError, TypeError, ValueError, IndexError, KeyError)):
+                # a NumPy-typed integer may be rejected where the signature says `int`: not judged (the same case runs with Python ints
+                # elsewhere); what is judged is that an *accepted* call keeps every promise
+                self.tag("npint-args-rejected:" + op)
+                if snap is not None:
+                    self._mutsan_after(op, snap, out, _inplace, _share_ok)
+                raise CaseAbort()
         if snap is not None:
             self._mutsan_after(op, snap, out, _inplace, _share_ok)
         return out
@@ -203,6 +218,18 @@ class Ctx:
         for p in probs:
             self.fail(op, "ILLFORMED:" + _illformed_class(p), p, **features)
         return not probs
+
+
+def _npintify(x, depth=0):
+    if isinstance(x, bool) or depth > 3:
+        return x
+    if isinstance(x, int):
+        return np.int64(x)
+    if isinstance(x, tuple):
+        return tuple(_npintify(v, depth + 1) for v in x)
+    if isinstance(x, list):
+        return [_npintify(v, depth + 1) for v in x]
+    return x
 
 
 def _norm_path(p):
